@@ -24,7 +24,7 @@ def keepers(flavour, n):
     return out
 
 
-def scenarios(flavour, n, max_edges, full_orders):
+def scenarios(flavour, n, max_edges, full_orders, queries=False):
     for seq in canon_sequences(n, max_edges):
         nodes = [[i, 100 + i] for i in range(n)]
         pre = [['connect', u, v, {'s': f'e{j}'}] for j, (u, v) in enumerate(seq)]
@@ -43,7 +43,7 @@ def scenarios(flavour, n, max_edges, full_orders):
                     idx = list(range(len(handles)))
                     orders = [tuple(idx[r:] + idx[:r]) for r in range(len(idx))] + [tuple(reversed(idx))]
                 for order in orders:
-                    steps = pre + gsteps + ([keep] if keep else []) + [['drops']]
+                    steps = pre + gsteps + ([keep] if keep else []) + ([['dump']] if queries else []) + [['drops']]
                     for h in order:
                         hd = handles[h]
                         if hd[0] == 'node':
@@ -54,7 +54,7 @@ def scenarios(flavour, n, max_edges, full_orders):
                             steps.append(['use_kept', 'r'])
                             steps.append(['drop_kept', 'r'])
                         steps.append(['drops'])
-                    yield (flavour, 'members' if members else 'no-container', keep[0] + ':' + keep[1]['mode'] if keep else 'no-result'), {
+                    yield (flavour, 'members' if members else 'no-container', (keep[0] + ':' + keep[1]['mode'] if keep else 'no-result') + ('+queries' if queries else '')), {
                         'flavour': flavour, 'nodes': nodes, 'steps': steps,
                         'meta': {'seq': seq, 'members': list(members), 'n': n}}
 
@@ -116,14 +116,16 @@ def run(prop, tier, seed):
     for fl in FLAVOURS:
         if tier == 'quick':
             items += list(scenarios(fl, 3, 3, False))
+            items += list(scenarios(fl, 3, 2, False, queries=True))
         else:
             items += list(scenarios(fl, 3, 4, False))
+            items += list(scenarios(fl, 3, 3, False, queries=True))
             items += list(scenarios(fl, 3, 2, True))
     cells = sorted({str(c) for c, _ in items})
     return scenario_check(
         prop, tier, seed, items, evaluate, sig_of,
         bounds={'nodes': 3, 'max_edges': 3 if tier == 'quick' else 4,
-                'handles': '3 node handles, optional container (members {0,1} or all), optional kept result of bfs path / dfs search / dfs cycle / preorder nodes / postorder edges',
+                'queries_before_drops': 'variants in which every degree / predicate / lookup query runs on every node before the drops (<=2 edges, thorough 3)', 'handles': '3 node handles, optional container (members {0,1} or all), optional kept result of bfs path / dfs search / dfs cycle / preorder nodes / postorder edges',
                 'drop_orders': 'rotations + reverse' if tier == 'quick' else 'rotations + reverse (<=4 edges), all permutations (<=2 edges)',
                 'outside': 'more handles per node; results of pfs and of filtered searches; drop during a running traversal'},
         assumptions=['Rc/Arc/Weak counting semantics as documented by std (strong/weak counts, value dropped when strong reaches 0)',
